@@ -62,6 +62,7 @@ type verifC43Stream struct {
 
 type verifC43Env struct {
 	srv     *Server
+	trusted string
 	streams map[string]*verifC43Stream
 	secrets []uuid.UUID // index k -> secret of the k-th session seen
 	uuids   []uuid.UUID // index k -> API id of that session
@@ -97,11 +98,15 @@ func (e *verifC43Env) close() {
 	}
 }
 
-func verifC43Reset(cdnSecret string) string {
+func verifC43Reset(cdnSecret string, trusted string) string {
 	if verifC43E != nil {
 		verifC43E.close()
 	}
-	e := &verifC43Env{streams: map[string]*verifC43Stream{}, names: map[string][2]string{}}
+	e := &verifC43Env{streams: map[string]*verifC43Stream{}, names: map[string][2]string{}, trusted: trusted}
+	var tp conf.IPNetworks
+	if err := tp.UnmarshalEnv("", trusted); err != nil {
+		return "error " + err.Error()
+	}
 	for _, p := range verifC43Known {
 		strm := &stream.Stream{
 			OrigDesc:          &description.Session{Medias: []*description.Media{test.MediaH264}},
@@ -125,7 +130,7 @@ func verifC43Reset(cdnSecret string) string {
 		SegmentDuration: conf.Duration(1 * time.Second),
 		PartDuration:    conf.Duration(200 * time.Millisecond),
 		SegmentMaxSize:  50 * 1024 * 1024,
-		TrustedProxies:  conf.IPNetworks{},
+		TrustedProxies:  tp,
 		CDNSecret:       cdnSecret,
 		ReadTimeout:     conf.Duration(10 * time.Second),
 		WriteTimeout:    conf.Duration(10 * time.Second),
@@ -256,12 +261,65 @@ func verifC43Status(code int) string {
 
 func verifC43HostPort(host string) string { return net.JoinHostPort(host, "40000") }
 
-func verifC43CIP(host string) string {
+func verifC43Trusted(ip net.IP, trusted string) bool {
+	if trusted == "" || ip == nil {
+		return false
+	}
+	for _, t := range strings.Split(trusted, ",") {
+		if !strings.Contains(t, "/") {
+			if strings.Contains(t, ":") {
+				t += "/128"
+			} else {
+				t += "/32"
+			}
+		}
+		if _, n, err := net.ParseCIDR(t); err == nil && n.Contains(ip) {
+			return true
+		}
+	}
+	return false
+}
+
+// oracle column, computed by hand and independently of the hls package: the client IP the server is
+// configured to believe = the peer address, unless the peer is a trusted proxy: then the right-most
+// address of X-Forwarded-For that is not itself a trusted proxy (or the left-most one)
+func verifC43CIP(host, xff, trusted string) string {
 	ip := net.ParseIP(host)
 	if ip == nil {
 		return ""
 	}
+	if verifC43Trusted(ip, trusted) && xff != "" {
+		items := strings.Split(xff, ",")
+		for i := len(items) - 1; i >= 0; i-- {
+			x := net.ParseIP(strings.TrimSpace(items[i]))
+			if x == nil {
+				break
+			}
+			if i == 0 || !verifC43Trusted(x, trusted) {
+				return x.String()
+			}
+		}
+	}
 	return ip.String()
+}
+
+// second opinion on the same column: a stand-alone gin engine (not the server's) with the same settings
+func verifC43CIPGin(host, xff, trusted string) string {
+	eng := gin.New()
+	var tp []string
+	if trusted != "" {
+		tp = strings.Split(trusted, ",")
+	}
+	if err := eng.SetTrustedProxies(tp); err != nil {
+		return "error"
+	}
+	c := gin.CreateTestContextOnly(httptest.NewRecorder(), eng)
+	c.Request = httptest.NewRequest(http.MethodGet, "http://hls.test/", nil)
+	c.Request.RemoteAddr = verifC43HostPort(host)
+	if xff != "" {
+		c.Request.Header.Set("X-Forwarded-For", xff)
+	}
+	return c.ClientIP()
 }
 
 func verifC43AuthCol(hdrs []string) string {
@@ -291,17 +349,17 @@ func verifC43HdrCols(hdrs []string) string {
 	return sb.String()
 }
 
-func verifC43CreateOp(urldir, host, cc string, hdrs []string) string {
+func verifC43CreateOp(trusted, urldir, host, cc string, hdrs []string, xff string) string {
 	dir := path.Dir(urldir + "/index.m3u8")
-	return fmt.Sprintf("create %s %s %s %s %s %s %s %s", verifutil.HexS(urldir), verifutil.HexS(dir),
-		verifC43Bit(verifC43IsKnown(dir)), verifutil.HexS(host), verifutil.HexS(verifC43CIP(host)), cc,
-		verifC43HdrCols(hdrs), verifC43AuthCol(hdrs))
+	return fmt.Sprintf("create %s %s %s %s %s %s %s %s %s", verifutil.HexS(urldir), verifutil.HexS(dir),
+		verifC43Bit(verifC43IsKnown(dir)), verifutil.HexS(host), verifutil.HexS(verifC43CIP(host, xff, trusted)), cc,
+		verifC43HdrCols(hdrs), verifC43AuthCol(hdrs), verifutil.HexS(xff))
 }
 
-func verifC43ProbeOp(kind, urldir, host, cookie, query string, hdrs []string, xff string) string {
+func verifC43ProbeOp(trusted, kind, urldir, host, cookie, query string, hdrs []string, xff string) string {
 	dir := path.Dir(urldir + "/x.ts")
 	return fmt.Sprintf("probe %s %s %s %s %s %s %s %s %s", kind, verifutil.HexS(urldir), verifutil.HexS(dir),
-		verifutil.HexS(host), verifutil.HexS(verifC43CIP(host)), cookie, query, verifC43HdrCols(hdrs), verifutil.HexS(xff))
+		verifutil.HexS(host), verifutil.HexS(verifC43CIP(host, xff, trusted)), cookie, query, verifC43HdrCols(hdrs), verifutil.HexS(xff))
 }
 
 func verifC43ParseHdrs(f []string) ([]string, []string) {
@@ -379,13 +437,17 @@ func verifC43Exec(op string) string {
 	e := verifC43E
 	switch f[0] {
 	case "reset":
-		return verifC43Reset(verifutil.UnHexS(f[1]))
+		return verifC43Reset(verifutil.UnHexS(f[1]), verifutil.UnHexS(f[2]))
 
 	case "create":
 		urldir, host, cc := verifutil.UnHexS(f[1]), verifutil.UnHexS(f[4]), f[6]
-		hdrs, _ := verifC43ParseHdrs(f[7:])
-		if verifC43CreateOp(urldir, host, cc, hdrs) != op {
+		hdrs, rest := verifC43ParseHdrs(f[7:])
+		xff := verifutil.UnHexS(rest[1])
+		if verifC43CreateOp(e.trusted, urldir, host, cc, hdrs, xff) != op {
 			return "stale-oracle"
+		}
+		if verifC43CIP(host, xff, e.trusted) != verifC43CIPGin(host, xff, e.trusted) {
+			return "oracle-disagree"
 		}
 		u := "/" + urldir + "/index.m3u8"
 		if cc != "n" {
@@ -398,6 +460,9 @@ func verifC43Exec(op string) string {
 		}
 		if cc == "c" {
 			req.AddCookie(&http.Cookie{Name: "cookieCheck", Value: "1"})
+		}
+		if xff != "" {
+			req.Header.Set("X-Forwarded-For", xff)
 		}
 		rec := e.do(req)
 		cnt, idx := e.counts()
@@ -425,8 +490,11 @@ func verifC43Exec(op string) string {
 		kind, urldir, host, cookie, query := f[1], verifutil.UnHexS(f[2]), verifutil.UnHexS(f[4]), f[6], f[7]
 		hdrs, rest := verifC43ParseHdrs(f[8:])
 		xff := verifutil.UnHexS(rest[0])
-		if verifC43ProbeOp(kind, urldir, host, cookie, query, hdrs, xff) != op {
+		if verifC43ProbeOp(e.trusted, kind, urldir, host, cookie, query, hdrs, xff) != op {
 			return "stale-oracle"
+		}
+		if verifC43CIP(host, xff, e.trusted) != verifC43CIPGin(host, xff, e.trusted) {
+			return "oracle-disagree"
 		}
 		fname := map[string]string{"m": "main_stream.m3u8", "s": "seg0.ts", "4": "part3.mp4", "p": "init.mp", "v": "video1_stream.m3u8"}[kind]
 		if kind == "s" {
@@ -452,7 +520,6 @@ func verifC43Exec(op string) string {
 		}
 		if xff != "" {
 			req.Header.Set("X-Forwarded-For", xff)
-			req.Header.Set("X-Real-Ip", xff)
 		}
 		if c, ok := e.secretString(cookie); ok {
 			req.AddCookie(&http.Cookie{Name: "other", Value: "1"})
